@@ -1,6 +1,6 @@
 SPECIFICATION Spec
 CONSTANTS
-  Ps = {1, 2, 7, 8, 9, 63, 64, 65, 71, 72, 100, 500, 512, 1024, 1280, 1500, 4096, 9000, 16384}
+  Ps = {1, 2, 7, 8, 9, 63, 64, 65, 71, 72, 100, 500, 512, 1024, 1280, 1500, 4096}
   KpSel = {10, 12, 18, 101, 1002, 8837, 55289, 55843, 56403}
   Mults = {1, 2, 3, 128, 254, 255}
 INVARIANTS TMaximal ZMinimal NMinimal Constructible MonotoneInWS Emit
